@@ -75,7 +75,8 @@ class C08(Check):
             start0 = gen.draw_start(rng, gen.EOP_FIRST, gen.EOP_LAST)
             site = {"latitude": rng.uniform(-60, 60), "longitude": rng.uniform(-180, 180), "altitude": 0.1}
             kind0 = rng.choice(["adv_radar", "radar"])
-            sens = [gen.ground_sensor(90001 + i, site["latitude"] + 0.01 * i, site["longitude"], site["altitude"],
+            stride0 = rng.choice([1, 8, 8])
+            sens = [gen.ground_sensor(90001 + i * stride0, site["latitude"] + 0.01 * i, site["longitude"], site["altitude"],
                                       gen.sensor_block(kind0, coarse=False, field_of_view={"fov_shape": "conic", "cone_angle": 30.0})) for i in range(2)]
             st0 = gen.place_over_site(rng, site, start0, 0, rng.uniform(0, 360), rng.uniform(30, 80), rng.uniform(36000, 40000), "corotate")
             off = np.array([rng.gauss(0, 1) for _ in range(3)])
